@@ -49,7 +49,7 @@ def run(c):
     os.makedirs(d, exist_ok=True)
     q = c.quick
     # ---- tokenizer: all texts over the error-heavy alphabets (panics are mismatches of class 'panic')
-    for alpha in ("AErrors", "ASymbols"):
+    for alpha in ("AErrors", "ASymbols", "AClusters"):
         st = vf.tlc_generate("MC_Lexer", lc.lexer_cfg(alpha, 5 if q else 6, lc.ALPHABETS[alpha]), "lex-%s-%d" % (alpha, 5 if q else 6), timeout=3000)
         c.add_tlc(st, "all texts over %s; generation" % alpha)
         rr = lc.replay(c, st, "c14-" + alpha, sig=True)
